@@ -591,7 +591,7 @@ def run(ctx):
                     bl.append({"spec": m2, "cuts": cuts, "via": "all"})
         bl.append({"spec": m2, "cuts": sorted({max(1, (n * i) // parts) for i in range(1, parts)})[: parts - 2], "empty_last": True}) if parts > 2 else None
     work += _chunks("blefrag", bl, 300)
-    nest = [{"depth": d, "types": ty, "cut": c, "spec": [[ty[0], d]]} for d in ([1, 2, 3, 8, 12, 16, 300, 1000] if quick else [1, 2, 3, 5, 8, 12, 16, 18, 100, 250, 300, 600, 1000, 3000]) for ty in ([1], [1, 9], [6, 3]) for c in (1, 3)]
+    nest = [{"depth": d, "types": ty, "cut": c, "spec": [[ty[0], d]]} for d in ([1, 2, 3, 8, 12, 16, 300, 1000] if quick else [1, 2, 3, 5, 8, 12, 16, 18, 100, 250, 300, 600, 1000, 1200]) for ty in ([1], [1, 9], [6, 3]) for c in (1, 3)]
     work += _chunks("nested", nest, 4)
 
     ctx.pmap(_work, work)
